@@ -17,7 +17,9 @@ Tie (what no model can replace):
      what the compiler accepts must instantiate and run;
  (f) default values x every parameter-type form (generic functions with the generic inside containers and tuples; concrete,
      generic-neutral, ill-typed defaults): every result of every accepted call has the shape of its static type and survives
-     a use according to that type.
+     a use according to that type;
+ (g) user structs / unions with user overloads (generic and not, right and wrong return type) of eq / cmp / hash / to_str / lt / add,
+     used through every derived library function (comparisons on containers of it, sort, max, distinct, display, set, mapping ..).
 A corpus of minimised past failures (corpus/C01/*.case) runs first."""
 import glob
 from .common import *
@@ -1394,6 +1396,164 @@ def default_param_part(chk, n):
                            {"outcome": f[0], "detail": f[1], "src": q["src"], "limits": q["limits"]})
 
 
+# ================================================================================================ user overloads of trait functions
+
+TRAIT_RET = {   # trait function -> (arity, right return type, wrong return types)
+    'eq': (2, 'bool', ['int', 'str', 'Optional<bool>', 'SELF']),
+    'cmp': (2, 'int', ['bool', 'str', 'float', 'SELF']),
+    'hash': (1, 'int', ['str', 'bool', 'float']),
+    'to_str': (1, 'str', ['int', 'Optional<str>', 'SELF']),
+    'lt': (2, 'bool', ['int', 'str']),
+    'add': (2, 'SELF', ['int', 'bool', 'Sequence<int>']),
+}
+TRAIT_VALUE = {'bool': ['true', 'false'], 'int': ['0', '1', '(-1)'], 'str': ['"s"'], 'float': ['1.5'], 'Optional<bool>': ['some(true)'],
+               'Optional<str>': ['some("s")'], 'Sequence<int>': ['[1]']}
+TRAIT_USES = [
+    "$x == $y", "$x != $y", "$x < $y", "$x <= $y", "$x > $y", "$x >= $y", "cmp($x, $y)", "hash($x)", "$x.to_str()", "display($x)", 'f"<{$x}>"',
+    "some($x) == some($y)", "some($x) != some($y)", "some($x) == none()", "[$x] == [$y]", "[$x, $y] != [$y]", "($x, 1) == ($y, 1)", "($x, 1) != ($y, 2)",
+    "[$x] < [$y]", "($x, 1) < ($y, 1)", "($x, 1) >= ($y, 1)", "cmp([$x], [$y, $x])", "cmp(($x, 1), ($y, 1))", "stack().push($x) == stack().push($y)",
+    "[$y, $x].sort()", "[$y, $x, $y].sort_reverse()", "max([$x, $y])", "min([$x, $y])", "max($x, $y)", "min($x, $y)", "[$x, $y].median()",
+    "n_largest([$x, $y, $x], 2)", "nth_smallest([$x, $y], 1)", "rank_eq([$x, $y], $x)", "rank_avg([$x, $y], $y)",
+    "[$x, $y, $x].distinct()", "[$x, $y].contains($y)", "[$x, $y, $x].count($x)", "[$x, $y, $x].to_generator().with_count().to_array()",
+    "[$x, $y, $x].to_generator().group().to_array()", "[$x].to_str()", "some($x).to_str()", "($x, 1).to_str()", "display([$x, $y])",
+    "hash([$x])", "hash(some($x))", "hash(($x, 1))", "set<$T>().update([$x, $y, $x]).len()", "set<$T>().update([$x]).contains($y)",
+    "set<$T>().update([$x]) == set<$T>().update([$y])", "mapping<$T>().set($x, 1).set($y, 2).get($x)", "mapping<$T>().set($x, 1).len()",
+    "mapping<$T>().set($x, 1) == mapping<$T>().set($y, 1)", "mapping<int>().set(1, $x) == mapping<int>().set(1, $y)",
+    "[$x, $y].sum()", "[$x, $y].to_generator().sum()", "[$x, $y].to_generator().max()", "[$x, $y].to_generator().distinct().to_array()",
+    "[$x, $y].to_generator().contains($x)", "[($x, 1), ($y, 2)].sort()", "[some($x), none()].sort()", "[[$x], [$y]].sort()", "json($x)",
+]
+
+
+def trait_needs(u):
+    """the trait functions a use looks up (so that most generated uses can compile when the overloads are the right ones)"""
+    need = set()
+    if any(k in u for k in ('==', '!=', 'contains', 'count(', 'distinct', 'with_count', 'group', 'rank_eq')):
+        need.add('eq')
+    if any(k in u for k in ('hash(', 'set<', 'mapping<$T>', 'distinct', 'with_count', 'group')):
+        need |= {'hash', 'eq'}
+    if any(k in u for k in (' < ', ' <= ', ' > ', ' >= ', 'cmp(', 'sort', 'max', 'min', 'median', 'n_largest', 'nth_', 'rank_avg')):
+        need.add('cmp')
+    if any(k in u for k in ('to_str', 'display', 'f"', 'json')):
+        need.add('to_str')
+    if 'sum' in u:
+        need.add('add')
+    return need
+
+
+def trait_program(rng):
+    """a user compound (generic or not, struct or union) with user overloads - generic and non-generic - of the functions the
+    library's derived functions look up (eq, cmp, hash, to_str, lt, add), each with the right or a wrong return type; then the
+    compound used through every derived library function"""
+    form = rng.choice(['box', 'box', 'pair', 'plain', 'plain2', 'union'])
+    if form == 'box':
+        decl, gens, gname = "struct Box<T>(v: T)\n", ['T'], 'Box<T>'
+        inst = rng.choice([('Box<int>', 'Box(1)', 'Box(2)'), ('Box<str>', 'Box("a")', 'Box("b")'), ('Box<Sequence<int>>', 'Box([1])', 'Box([2, 3])')])
+    elif form == 'pair':
+        decl, gens, gname = "struct P<T, U>(a: T, b: U)\n", ['T', 'U'], 'P<T, U>'
+        inst = ('P<int, str>', 'P(1, "a")', 'P(2, "b")')
+    elif form == 'plain':
+        decl, gens, gname = "struct N(v: int)\n", [], 'N'
+        inst = ('N', 'N(1)', 'N(2)')
+    elif form == 'plain2':
+        decl, gens, gname = "struct Q(v: int, w: Sequence<str>)\n", [], 'Q'
+        inst = ('Q', 'Q(1, ["a"])', 'Q(2, [])')
+    else:
+        decl, gens, gname = "union Un(i: int, s: str)\n", [], 'Un'
+        inst = ('Un', 'Un::i(1)', 'Un::s("b")')
+    ctype, x, y = inst
+    lines = [decl]
+    tags = []
+    for tr in rng.sample(sorted(TRAIT_RET), rng.choice([2, 3, 3, 4, 5])):
+        arity, right, wrong = TRAIT_RET[tr]
+        generic = bool(gens) and rng.random() < 0.6
+        ptype = gname if generic else ctype
+        ok = rng.random() < 0.4
+        ret = right if ok else rng.choice(wrong)
+        rtext = ptype if ret == 'SELF' else ret
+        body = 'a' if ret == 'SELF' else rng.choice(TRAIT_VALUE[ret])
+        params = ', '.join(f'{n}: {ptype}' for n in ['a', 'b'][:arity])
+        lines.append(f"fn {tr}" + ('<' + ', '.join(gens) + '>' if generic else '') + f"({params})->{rtext}{{\n{body}\n}}\n")
+        tags.append(f"{tr}:{'g' if generic else 'c'}:{'right' if ok else 'wrong'}")
+    defined = {t.split(':')[0] for t in tags}
+    fitting = [u for u in TRAIT_USES if trait_needs(u) <= defined]
+    uses = rng.sample(fitting, min(len(fitting), 9)) + rng.sample(TRAIT_USES, 4)
+    lets = []
+    for i, u in enumerate(uses):
+        lets.append((f"t{i}", f"let t{i} = " + u.replace('$x', x).replace('$y', y).replace('$T', ctype) + ";\n"))
+    return "".join(lines), lets, form + " " + ",".join(tags)
+
+
+def judge_lets(chk, family, progs):
+    """progs: [(head source, [(name, let line)], tag)]. Acceptance is not judged. A program rejected as a whole is retried one
+    binding at a time. Whatever is accepted: no panic/abort, every binding has the shape of the compiler's static type, and a
+    second program that uses every binding according to that type (use_expr) must not panic either."""
+    def req(head, lets):
+        return {"op": "typing", "f": "run", "src": head + "".join(l for _, l in lets), "get": [n for n, _ in lets], "types": [n for n, _ in lets], "limits": LIB_LIMITS[0]}
+    first = [req(h, lets) for h, lets, _ in progs]
+    todo = []
+    for (head, lets, tag), q, r in zip(progs, first, run_sliced(first)):
+        chk.evaluations += 1
+        f = fail_of(r)
+        if f or r.get("compile") != "ok":
+            if f:
+                chk.count(f"{family}:whole:{f[0]}")
+                report_failure(chk, family, tag, {"outcome": f[0], "detail": f[1], "src": q["src"], "limits": q["limits"]}, {"get": q["get"]})
+            else:
+                chk.count(f"{family}:whole:rejected")
+            for one in lets:
+                todo.append((head, [one], tag, None))
+        else:
+            chk.count(f"{family}:whole:accepted")
+            todo.append((head, lets, tag, r))
+    singles = [req(h, lets) for h, lets, _, r in todo if r is None]
+    sres = iter(run_sliced(singles)) if singles else iter([])
+    uses, umeta = [], []
+    for head, lets, tag, r in todo:
+        q = req(head, lets)
+        if r is None:
+            r = next(sres)
+            chk.evaluations += 1
+            f = fail_of(r)
+            if f:
+                chk.count(f"{family}:single:{f[0]}")
+                report_failure(chk, family, tag, {"outcome": f[0], "detail": f[1], "src": q["src"], "limits": q["limits"]}, {"get": q["get"]})
+                continue
+            chk.count(f"{family}:single:" + ("accepted" if r.get("compile") == "ok" else "rejected"))
+        if r.get("compile") != "ok" or r.get("inst") != "ok":
+            continue
+        chk.nontrivial.add(q["src"])
+        extra = []
+        for n1, _ in lets:
+            dump, tt = r["vals"].get(n1), r.get("types", {}).get(n1)
+            if not dump or not tt or dump.startswith("!") or tt.startswith("!"):
+                continue
+            try:
+                t = parse_type(tt)
+            except ValueError:
+                continue
+            chk.count("shape:checked")
+            why = shape_ok(parse_dump(dump), t)
+            if why:
+                chk.violation(f"shape:{family}", f"a binding does not have the shape of its static type {tt}: {why}; {n1} = {dump[:120]}; {tag}; program {q['src']!r}",
+                              {"src": q["src"], "get": [n1], "limits": q["limits"], "static_type": tt, "dump": dump})
+            u = use_expr(n1, t)
+            if u:
+                extra.append(f"let u_{n1} = {u};\n")
+        if extra:
+            uses.append({"op": "typing", "f": "run", "src": q["src"] + "".join(extra), "get": [], "types": [], "limits": LIB_LIMITS[0]})
+            umeta.append(tag)
+    for tag, q, r in zip(umeta, uses, run_sliced(uses) if uses else []):
+        chk.evaluations += 1
+        f = fail_of(r)
+        chk.count(f"{family}:use:" + (f[0] if f else ("ok" if r.get("compile") == "ok" else "rejected")))
+        if f:
+            report_failure(chk, family + "-use", tag + " (results used according to their static types)", {"outcome": f[0], "detail": f[1], "src": q["src"], "limits": q["limits"]})
+
+
+def trait_overload_part(chk, n):
+    judge_lets(chk, "trait", [trait_program(chk.rng) for _ in range(n)])
+
+
 # ================================================================================================ (a) core fragment
 
 def ty_sexp(t):
@@ -1902,6 +2062,7 @@ def run(chk):
     script_search(chk, 500 if quick else 6000)
     decl_part(chk, 250 if quick else 3000, 350 if quick else 4000)
     default_param_part(chk, 220 if quick else 3000)
+    trait_overload_part(chk, 45 if quick else 700)
     chk.coverage["seconds"] = {"corpus": round(t1 - t0, 1), "core": round(t2 - t1, 1), "library": round(t3 - t2, 1), "scripts": round(time.time() - t3, 1)}
     return chk.finish(rule="(a) generated core programs + near-miss mutants (one node changed: argument type, dropped/extra argument, index out of range, literal "
                            "type, unbound name, call of a non-function, condition type, declared result/parameter type): accept/reject and static types of the real "
